@@ -24,7 +24,7 @@ var muts = []string{"sig-bytes", "sig-replay", "sig-future", "sig-owner", "sig-k
 	"ops-size", "ops-empty", "len-short", "len-long", "own-garbage", "own-nothex", "own-mismatch", "dup-other-owner"}
 
 var kindsC11 = []string{"opadd", "opadd", "oprem", "vaddok", "vaddok", "vaddok", "vaddok", "vaddok", "vaddmut", "vaddmut", "vaddmut", "vaddmut", "vaddmut",
-	"vrem", "vrem", "vrem", "vexit", "vexit", "liq", "liq", "react", "react", "fee", "fee", "meta"}
+	"vrem", "vrem", "vrem", "vexit", "vexit", "vexit", "liq", "liq", "react", "react", "fee", "fee", "meta", "meta"}
 
 var kindsOwn = []string{"opadd", "oprem", "vaddok", "vaddok", "vaddok", "vaddok", "vaddok", "vaddok", "vaddmut", "vaddmut",
 	"vrem", "vrem", "vrem", "vrem", "vexit", "liq", "liq", "liq", "react", "react", "react", "fee"}
@@ -57,13 +57,16 @@ func GenScenario(t *rapid.T, b Bias) Scenario {
 		if rapid.IntRange(0, 6).Draw(t, "unregistered") == 0 {
 			us = 0
 		}
-		if pre < 4 && rapid.Bool().Draw(t, "morepre") {
+		if rapid.IntRange(0, 9).Draw(t, "allpre") < 7 {
 			pre = nops
 		}
 	}
 	nowners := rapid.IntRange(2, MaxOwners).Draw(t, "nowners")
 	nvals := rapid.IntRange(1, MaxValidators).Draw(t, "nvals")
 	as := rapid.SliceOfN(rapid.Custom(genAbs(kinds)), 1, b.MaxEvents).Draw(t, "events")
+	if more := rapid.SliceOfN(rapid.Custom(genAbs(kinds)), 0, b.MaxEvents/2).Draw(t, "more_events"); len(as)+len(more) <= b.MaxEvents {
+		as = append(as, more...)
+	}
 	return Resolve(nops, us, nowners, nvals, pre, b.OwnHeavy, as)
 }
 
@@ -230,8 +233,18 @@ func Resolve(nops, us, nowners, nvals, pre int, ownHeavy bool, as []abs) Scenari
 			e := Ev{K: a.Kind, V: a.A % nvals, O: a.B % nowners, Ops: []uint64{1, 2, 3, 4}}
 			if ex := existing(); len(ex) > 0 && a.D >= 15 {
 				e.V = ex[a.A%len(ex)]
+				if a.Kind == "vexit" && a.D >= 40 { // prefer validators whose exit is observable
+					for _, v := range ex {
+						if sh := m.Shares[v]; sh.Meta != nil && sh.OwnID != 0 {
+							e.V = v
+						}
+					}
+				}
 			}
 			if sh := m.Shares[e.V]; sh != nil {
+				if a.Kind == "vexit" && !ownHeavy && sh.OwnID != 0 && sh.Meta == nil && a.D%5 < 3 {
+					emit(Ev{K: "meta", V: e.V, Idx: uint64(1000 + a.B%50)}) // make the exit observable
+				}
 				e.Ops = append([]uint64(nil), sh.Ops...)
 				e.O = sh.Owner
 				if a.C%4 == 0 {
